@@ -128,7 +128,20 @@ def check_retokenize(env, src: str, toks: list[Any]) -> tuple[str, str] | None: 
     return None
 
 
-def check_nesting(src: str, tok, lo: int, hi: int, where: str) -> tuple[str, str] | None:  # noqa: ANN001
+def _relex_path(env, piece: str):  # noqa: ANN001, ANN202
+    """The expression tokens obtained by scanning *piece* alone as an output expression."""
+    from liquid2.exceptions import LiquidError
+
+    try:
+        toks = env.tokenize("{{ " + piece + " }}")
+    except LiquidError as e:
+        return type(e).__name__
+    if len(toks) != 1 or not hasattr(toks[0], "expression"):
+        return [type(t).__name__ for t in toks]
+    return [(type(e).__name__, str(e)) for e in toks[0].expression]
+
+
+def check_nesting(src: str, tok, lo: int, hi: int, where: str, env=None) -> tuple[str, str] | None:  # noqa: ANN001
     """T3: sub-tokens nest inside their parent's span, in order."""
     last = lo
     for e in _expr_tokens(tok):
@@ -145,7 +158,15 @@ def check_nesting(src: str, tok, lo: int, hi: int, where: str) -> tuple[str, str
         if cls == "Token" and src[s:p] != e.value:
             return (f"expr-span:Token:{e.type_.name}:text-mismatch@{where}",
                     f"{src[s:p]!r} != {e.value!r}")
-        r = check_nesting(src, e, s, p, cls)
+        # a path's span is precisely the text it was scanned from: alone, that text
+        # scans to the same path
+        if cls == "PathToken" and env is not None:
+            again = _relex_path(env, src[s:p])
+            # (a one-word path scans as a WORD token when it stands alone: compare the text)
+            if not isinstance(again, list) or [x[1] for x in again if isinstance(x, tuple)] != [str(e)]:
+                return (f"expr-span:PathToken:relexes-differently@{where}",
+                        f"{src[s:p]!r} scanned alone gives {again!r}, the token is {str(e)!r}")
+        r = check_nesting(src, e, s, p, cls, env)
         if r:
             return r
     return None
@@ -231,11 +252,17 @@ def check_error(err) -> tuple[str, str] | None:  # noqa: ANN001
 
 
 class Runner:
-    def __init__(self, ctx: Ctx):
+    def __init__(self, ctx: Ctx, shorthand: bool = False):
         from liquid2.exceptions import LiquidError
 
         self.ctx = ctx
         self.Environment, self.DictLoader = _env()
+        if shorthand:
+            class ShorthandEnvironment(self.Environment):  # type: ignore[name-defined,misc]
+                shorthand_indexes = True
+
+            self.Environment = ShorthandEnvironment
+        self.shorthand = shorthand
         self.LiquidError = LiquidError
         self.env = self.Environment()
         self._envs: dict[int, Any] = {}
@@ -278,7 +305,7 @@ class Runner:
             if r:
                 return r
             for t in toks:
-                r = check_nesting(src, t, t.start, t.stop, type(t).__name__)
+                r = check_nesting(src, t, t.start, t.stop, type(t).__name__, env)
                 ctx.count("expr_tokens_checked", sum(1 for _ in _expr_tokens(t)))
                 if r:
                     return r
@@ -344,7 +371,8 @@ class Runner:
             )
             wit_src = "".join(small)
         ctx.violation(key, what, {"source": wit_src, "data": data, "templates": templates,
-                                  "render": render, "from": src if wit_src != src else None})
+                                  "render": render, "shorthand_indexes": self.shorthand,
+                                  "from": src if wit_src != src else None})
         return key
 
 
@@ -368,7 +396,8 @@ FRAGS = [
     "{{ a if b else c || upcase }}", "{{ a | map: i => i.x }}", "{{ x | where: (i, j) => i.k == j }}",
     "{% include 'p' with a as b, k: v %}", "{% render 'p' for xs as x %}", "{{ 1.5e3 }}{{ -7 }}{{ 1e-2 }}",
     "{{ a[-1] }}", "{{ a[ 'x' ] . b }}", "{{ nil }}{{ true }}{{ empty }}", "{% with a: 1, b: 'two' %}{% endwith %}",
-    "{{ 'é😀\\u00e9\\n' }}", "{{ a <> b }}{{ a >= b }}", "{% translate %}Hi{% plural %}His{% endtranslate %}",
+    "{{ 'é😀\\u00e9\\n' }}", "{{ a <> b }}{{ a >= b }}", "{{ a.1 }}", "{{ a.b.0.c[1].2 | f: x.0 }}", "{% if a[b.1].0 == c.2 %}",
+    "{% for i in a.0 limit: b.1 %}", "{{ a[0].1['k'].2 }}", "{% translate %}Hi{% plural %}His{% endtranslate %}",
 ]
 
 
@@ -401,12 +430,139 @@ def _insertions(r: Runner, rng: random.Random, src: str, k: int) -> Iterator[str
         yield out
 
 
+# ---------------------------------------------------------------------------
+# derived positions: line numbers of extracted translation messages
+# ---------------------------------------------------------------------------
+
+_NL = ["\n", "\n  ", "\r\n", "\n\n\t", " ", "  ", ""]
+
+
+def _msg_source(rng: random.Random) -> tuple[str, dict[str, str]]:
+    """A source whose translatable literals are unique; returns (source, {message: 'filter'|'tag'})."""
+    kinds: dict[str, str] = {}
+    n = [0]
+
+    def lit() -> tuple[str, str]:
+        n[0] += 1
+        m = f"msg{n[0]}x"
+        q = rng.choice("'\"")
+        return m, f"{q}{m}{q}"
+
+    def gap() -> str:
+        return rng.choice(_NL) or " "
+
+    def filtered() -> str:
+        m, l = lit()
+        kinds[m] = "filter"
+        f = rng.choice(["t", "gettext", "ngettext", "pgettext", "npgettext", "t-ctx"])
+        if f in ("t", "gettext"):
+            tail = f"|{gap()}{f}"
+        elif f == "t-ctx":
+            tail = f"|{gap()}t:{gap()}'ctx',{gap()}k: u"
+        elif f == "ngettext":
+            tail = f"|{gap()}ngettext:{gap()}'{m}s',{gap()}n"
+        elif f == "pgettext":
+            tail = f"|{gap()}pgettext:{gap()}'ctx'"
+        else:
+            tail = f"|{gap()}npgettext:{gap()}'ctx',{gap()}'{m}s',{gap()}n"
+        if rng.random() < 0.3:
+            tail += f"{gap()}|{gap()}upcase"
+        return f"{l}{gap()}{tail}"
+
+    def stmt(depth: int = 0) -> str:
+        k = rng.randrange(9 if depth < 2 else 6)
+        if k == 0:
+            return "{{" + gap() + filtered() + gap() + "}}"
+        if k == 1:
+            return "{%" + gap() + "assign v" + str(rng.randrange(4)) + gap() + "=" + gap() + filtered() + gap() + "%}"
+        if k == 2:
+            return "{%" + gap() + "echo" + gap() + filtered() + gap() + "%}"
+        if k == 3:
+            lines = []
+            for _ in range(rng.randint(1, 3)):
+                lines.append(rng.choice(["echo ", "assign w = "]) + filtered().replace("\r\n", " ").replace("\n", " "))
+                if rng.random() < 0.3:
+                    lines.append("# note")
+            return "{% liquid" + "\n" + "\n".join("  " + x for x in lines) + "\n%}"
+        if k == 4:
+            m, _l = lit()
+            kinds[m] = "tag"
+            args = rng.choice(["", f"{gap()}a: 1", f"{gap()}context: 'c',{gap()}b: u"])
+            return "{%" + gap() + "translate" + args + gap() + "%}" + gap() + m + gap() + "{% endtranslate %}"
+        if k == 5:
+            inner = filtered()
+            kinds[f"msg{n[0]}x"] = "nested"
+            return "{{" + gap() + "u" + gap() + "|" + gap() + "default:" + gap() + '"a ${' + gap().replace("\r\n", " ") + inner + ' } b"' + gap() + "}}"
+        body = "".join(rng.choice(["text\n", " ", "\n"]) + stmt(depth + 1) for _ in range(rng.randint(1, 2)))
+        if k == 6:
+            return "{%" + gap() + "if u %}" + body + "{% else %}" + stmt(depth + 1) + "{% endif %}"
+        if k == 7:
+            return "{% for i in (1..2) %}" + body + "{%" + gap() + "endfor" + gap() + "%}"
+        return "{% case u %}{% when 1 %}" + body + "{% endcase %}"
+
+    parts = []
+    for _ in range(rng.randint(1, 5)):
+        parts.append(rng.choice(["", "lead\n", "\n\n", "x\r\n", "{# c\n c #}\n"]))
+        parts.append(stmt())
+    return "".join(parts), kinds
+
+
+def check_message_lines(env, src: str, kinds: dict[str, str]) -> tuple[tuple[str, str] | None, int]:  # noqa: ANN001
+    """Every extracted message's lineno is the line of its literal (filters) or of its tag."""
+    from liquid2.messages import extract_from_template
+
+    t = env.from_string(src)
+    lines = src.splitlines(keepends=True)
+    starts = [0]
+    for ln in lines:
+        starts.append(starts[-1] + len(ln))
+
+    def line_of(off: int) -> int:
+        for i in range(len(lines)):
+            if off < starts[i + 1]:
+                return i + 1
+        return len(lines)
+
+    seen = 0
+    for m in extract_from_template(t):
+        seen += 1
+        msg = m.message
+        parts = [x for x in msg if isinstance(x, str)]
+        ident = next((x.strip() for x in parts if x.strip() in kinds), None)
+        if not (1 <= m.lineno <= max(len(lines), 1)):
+            return ("message-lineno:outside-source", f"lineno {m.lineno} of message {msg!r} is outside the {len(lines)} lines of the source"), seen
+        if ident is None:
+            continue
+        off = src.find(ident)
+        if kinds[ident] == "filter":
+            want = line_of(off)
+            if m.lineno != want:
+                return (f"message-lineno:{m.funcname}-filter:not-the-line-of-its-literal",
+                        f"message {ident!r} extracted with lineno {m.lineno} but its literal is on line {want}"), seen
+        elif kinds[ident] == "nested":
+            # a filter inside a template string that is itself a filter argument: the
+            # message belongs to the enclosing output statement; any line from the
+            # statement's start to the literal describes it
+            lo, hi = line_of(src.rfind("{{", 0, off)), line_of(off)
+            if not (lo <= m.lineno <= hi):
+                return (f"message-lineno:{m.funcname}-filter:outside-its-statement",
+                        f"message {ident!r} extracted with lineno {m.lineno} but its statement spans lines {lo}-{hi}"), seen
+        else:
+            tag = src.rfind("{%", 0, src.rfind("translate", 0, off))
+            want = line_of(tag)
+            if m.lineno != want:
+                return ("message-lineno:translate-tag:not-the-line-of-its-tag",
+                        f"message {ident!r} extracted with lineno {m.lineno} but its tag starts on line {want}"), seen
+    return None, seen
+
+
 def shards(tier: str, seed: int) -> list[dict[str, Any]]:
     n = 8 if tier == "quick" else 32
     specs = [{"kind": "corpus", "i": i, "n": n} for i in range(n)]
     m = 4 if tier == "quick" else 16
     specs += [{"kind": "frags", "i": i, "n": m} for i in range(m)]
     specs += [{"kind": "gen", "i": i, "n": m, "per": 400 if tier == "quick" else 6000} for i in range(m)]
+    specs += [{"kind": "messages", "i": i, "n": 2, "per": 1500 if tier == "quick" else 30000} for i in range(2)]
     return specs
 
 
@@ -417,11 +573,14 @@ def floors(tier: str) -> dict[str, int]:
         "expr_tokens_checked": 50000 * k,
         "error_positions_checked": 2000 * k,
         "node_tokens_checked": 20000 * k,
+        "message_linenos_checked": 5000 * k,
+        "shorthand_index_sources": 5000 * k,
     }
 
 
 def run_shard(spec: dict[str, Any], ctx: Ctx) -> None:
     r = Runner(ctx)
+    rs = Runner(ctx, shorthand=True)  # same workloads under shorthand_indexes = True
     tier = spec["tier"]
     rng = random.Random(f"{spec['seed']}:{spec['kind']}:{spec['i']}")
     if spec["kind"] == "corpus":
@@ -432,6 +591,7 @@ def run_shard(spec: dict[str, Any], ctx: Ctx) -> None:
                 continue
             src, data, tpls = c["template"], c["data"], c["templates"]
             r.run(src, data, tpls)
+            rs.run(src, data, tpls, render=False)
             for s2 in _insertions(r, rng, src, 6 if tier == "quick" else 30):
                 last = s2
                 r.run(s2, data, tpls)
@@ -469,17 +629,46 @@ def run_shard(spec: dict[str, Any], ctx: Ctx) -> None:
                 i = rng.randrange(len(src))
                 r.run(src[:i], data, em.partials, render=False)
         ctx.sample({"kind": "generated", "source": src})
+    elif spec["kind"] == "messages":
+        src = ""
+        for _ in range(spec["per"]):
+            src, kinds = _msg_source(rng)
+            _run_messages(r, src, kinds)
+        ctx.sample({"kind": "messages", "source": src})
     else:
         n = 2500 if tier == "quick" else 25000
         s = ""
         for _ in range(n):
             s = _frag_source(rng)
             r.run(s, {}, {}, render=False)
+            rs.run(s, {}, {}, render=False)
+            ctx.count("shorthand_index_sources")
         ctx.sample({"kind": "fragments", "source": s})
 
 
+def _run_messages(r: Runner, src: str, kinds: dict[str, str]) -> str | None:
+    ctx = r.ctx
+    ctx.ev()
+    try:
+        res, seen = check_message_lines(r.env, src, kinds)
+    except r.LiquidError as e:
+        ctx.count("message_sources_rejected")
+        res, seen = check_error(e), 0
+    ctx.count("message_linenos_checked", seen)
+    if seen:
+        ctx.nt("msg", src)
+    if res is None:
+        return None
+    key, what = res
+    ctx.violation(key, what, {"source": src, "message_kinds": kinds})
+    return key
+
+
 def replay(wit: dict[str, Any], ctx: Ctx) -> None:
-    r = Runner(ctx)
+    r = Runner(ctx, shorthand=bool(wit.get("shorthand_indexes")))
+    if "message_kinds" in wit:
+        print(f"replay C17: key={_run_messages(r, wit['source'], wit['message_kinds'])}")
+        return
     src = wit["source"]
     key = r.run(src, wit.get("data") or {}, wit.get("templates") or {}, wit.get("render", True))
     print(f"replay C17: key={key}")
